@@ -3,6 +3,7 @@
 package scen
 
 import (
+	"strings"
 	"crypto/sha256"
 	"fmt"
 	"math/rand"
@@ -88,16 +89,23 @@ func GenData(rng *rand.Rand, kind string, n, slice int) []byte {
 	return b
 }
 
+// longName is a 200-character file name component; longDirs nests four
+// 61-character directories, so that the relative path exceeds 255 bytes
+// while every component stays below NAME_MAX.
+var longName = strings.Repeat("long-name ", 20)
+var longDirs = strings.Repeat(strings.Repeat("d", 61)+"/", 4)
+
 // GenName makes a unique relative file name; ascii only when ascii is
 // set; with sub-directories when subdirs is set.
 func GenName(rng *rand.Rand, i int, ascii, subdirs bool) string {
-	base := []string{"a", "data", "file one", "x.bin", "R-1", "p.q.r", "UPPER.TXT", "z_9", "vol.par2.txt", "#h", "a=b", "pct%20", "tab\tname", "read..me", "take 2...final", "x.."}[rng.Intn(16)]
+	base := []string{"a", "data", "file one", "x.bin", "R-1", "p.q.r", "UPPER.TXT", "z_9", "vol.par2.txt", "#h", "a=b", "pct%20", "tab\tname", "read..me", "take 2...final", "x..",
+		"back\\slash", "C:\\dir\\f", "100%", longName}[rng.Intn(20)]
 	if !ascii && rng.Intn(3) == 0 {
 		base = []string{"ünï", "日本語", "emoji😀x", "Ωmega", "𝔘𝔫𝔦"}[rng.Intn(5)]
 	}
 	name := fmt.Sprintf("%s-%d", base, i)
 	if subdirs && rng.Intn(3) == 0 {
-		name = []string{"sub/", "d1/d2/", "s p/", "sub/"}[rng.Intn(4)] + name
+		name = []string{"sub/", "d1/d2/", "s p/", longDirs}[rng.Intn(4)] + name
 	}
 	return name
 }
